@@ -2,6 +2,7 @@
    Core-only (no Mathlib / Batteries anywhere below), so it links as a native executable. -/
 import Driver.Util
 import Driver.C15
+import Driver.SrvMerge
 import Driver.CFilter
 import Driver.RaftLog
 import Driver.DataZSet
@@ -44,6 +45,7 @@ def main (args : List String) : IO UInt32 := do
   | ["datacorezset"] => loop Drv.DataZSet.step hin hout {}; hout.flush; return 0
   | ["raftlog"] => loop Drv.RaftLog.step hin hout Drv.RaftLog.init; hout.flush; return 0
   | ["cfilter"] => loop Drv.CFilter.step hin hout (); hout.flush; return 0
+  | ["srvmerge"] => loop Drv.SrvMerge.step hin hout 3; hout.flush; return 0
   | ["c15"] => loop Drv.C15.step hin hout (); hout.flush; return 0
   | ["wal"] => loop Drv.Wal.step hin hout {}; hout.flush; return 0
   | ["lin"] => loop Drv.Lin.step hin hout (); hout.flush; return 0
